@@ -9,6 +9,7 @@ import (
 	"strings"
 
 	"github.com/ipld/go-ipld-prime"
+	"github.com/ipld/go-ipld-prime/codec/dagcbor"
 	"github.com/ipld/go-ipld-prime/codec/dagjson"
 	"github.com/ipld/go-ipld-prime/datamodel"
 
@@ -288,7 +289,8 @@ func c14Statements(depth int) []string {
 		}
 		// second element: selector-like strings, a non-string, and - the operand shapes of not / and / or -
 		// a statement, a list of statements and the empty list, each followed by a third element
-		sels := []string{`"."`, `".a"`, `".a?"`, `".?"`, `"x"`, `1`, `["==",".a",1]`, `[["==",".a",1]]`, `[]`}
+		// (the two bytes literals hold the texts "." and ".a": a selector is a string, not bytes that read like one)
+		sels := []string{`"."`, `".a"`, `".a?"`, `".?"`, `"x"`, `1`, `["==",".a",1]`, `[["==",".a",1]]`, `[]`, `{"/":{"bytes":"Lg"}}`, `{"/":{"bytes":"LmE"}}`}
 		for _, a := range sels {
 			for _, b := range args {
 				res = append(res, `["`+op+`",`+a+`,`+b+`]`)
@@ -754,7 +756,7 @@ func C14() *engine.Check {
 	return &engine.Check{
 		Property: "C14",
 		Level:    "model_checking",
-		Subs:     []*engine.Sub{c14KeptSub(), c14SelectorSub(), c14LongSub(), c14PolicySub(), c14ConstructedSub(), c14CtorSelSub()},
+		Subs:     []*engine.Sub{c14KeptSub(), c14SelectorSub(), c14LongSub(), c14PolicySub(), c14ConstructedSub(), c14SharedSub(), c14CtorSelSub()},
 		Assumptions: []string{
 			"rejected selector texts carry no obligation; accepted normalisations of the printed form: '?' after an identity dot dropped, leading zeros of bracketed integers dropped; anything else counts as a dropped or altered part",
 			"policy nodes are generated from a grammar of statement shapes (operator x arity x argument kind), not from arbitrary IPLD",
@@ -834,6 +836,83 @@ func c14ConstructedSub() *engine.Sub {
 						return
 					}
 				}
+			}
+		},
+	}
+}
+
+// c14SharedSub: constructed == statements whose literal IS the node the selector resolves to in the data (a
+// policy derived from the arguments it is checked against), through the in-memory and the DAG-CBOR round trip.
+func c14SharedSub() *engine.Sub {
+	vals := c11SharedVals()
+	return &engine.Sub{
+		Name:  "constructed-policy-sharing-nodes-with-data",
+		Rule:  "== statements (bare, negated, under all, inside a list literal) built with the constructors from a literal that is the very node the selector resolves to in the data (13 values: lists and maps with and without a NaN at depth 1..3, scalars, links): Match / PartialMatch are the same before and after ToIPLD -> FromIPLD, and before and after ToIPLD -> DAG-CBOR bytes -> FromIPLD (a round trip that creates fresh nodes); non-trivial = values holding a NaN",
+		Bound: func(string) string { return fmt.Sprintf("%d values x 4 statement forms x 2 round trips", len(vals)) },
+		Gen: func(tier string, emit func(any) bool) {
+			for v := range vals {
+				for f := 0; f < 4; f++ {
+					if !emit(&c11SharedCase{Val: v, Form: f}) {
+						return
+					}
+				}
+			}
+		},
+		NewCase: func() any { return &c11SharedCase{} },
+		Run: func(ctx *engine.Ctx, c any) {
+			cs := c.(*c11SharedCase)
+			x := vals[cs.Val]()
+			data := nMap(kv{"v", x}, kv{"w", nList(x, x)}, kv{"u", nList(x)})
+			var cons policy.Constructor
+			switch cs.Form {
+			case 0:
+				cons = policy.Equal(".v", x)
+			case 1:
+				cons = policy.Not(policy.Equal(".v", x))
+			case 2:
+				cons = policy.All(".w", policy.Equal(".", x))
+			default:
+				cons = policy.Equal(".u", nList(x))
+			}
+			p := policy.MustConstruct(cons)
+			ctx.States(1)
+			if refDeepEqual(x, x) == triDC {
+				ctx.Nontrivial(1)
+			}
+			n, err := p.ToIPLD()
+			if err != nil {
+				ctx.Failf(cs, "constructed/toipld-fails", "form %d on value #%d: %v", cs.Form, cs.Val, err)
+				return
+			}
+			m1, pm1 := mp(p, data)
+			check := func(how string, q policy.Policy) {
+				m2, pm2 := mp(q, data)
+				ctx.Eval(2)
+				ctx.Trans(1)
+				ctx.Outcome(fmt.Sprint(m1, m2))
+				if m1 != m2 || pm1 != pm2 {
+					ctx.Failf(cs, "constructed/matching-changes-"+how, "form %d on value #%d (literal = the data's own node): (%v,%v) as constructed, (%v,%v) after the %s round trip", cs.Form, cs.Val, m1, pm1, m2, pm2, how)
+				}
+			}
+			if p2, err := policy.FromIPLD(n); err != nil {
+				ctx.Failf(cs, "constructed/fromipld-rejects", "form %d on value #%d: %v", cs.Form, cs.Val, err)
+			} else {
+				check("ipld", p2)
+			}
+			b, err := ipld.Encode(n, dagcbor.Encode)
+			if err != nil {
+				ctx.Outcome("dagcbor-cannot-carry-it")
+				return
+			}
+			n3, err := ipld.Decode(b, dagcbor.Decode)
+			if err != nil {
+				ctx.Outcome("dagcbor-cannot-carry-it")
+				return
+			}
+			if p3, err := policy.FromIPLD(n3); err != nil {
+				ctx.Failf(cs, "constructed/fromipld-rejects", "form %d on value #%d after DAG-CBOR: %v", cs.Form, cs.Val, err)
+			} else {
+				check("dag-cbor", p3)
 			}
 		},
 	}
